@@ -137,6 +137,43 @@ def run(ctx):
                   msg=f"assignment to `{name}` is routed to {sorted(got)}; documented: {exp}(name, value)", key=f"route {name.count('.')} dots",
                   node=program.func("eval.py::AstEval.recurse_assign"), rel="eval.py")
 
+    # R16.7 precedence for attribute targets: a Python object bound to the first name wins over a state variable of the same dotted name ----
+    ctx.rule("R16.7", "`del a.b`, `a.b = v` and reading `a.b`: when `a` is a Python variable the object's attribute is used; only when `a` is undefined the dotted name denotes a state variable", floor=4)
+    from ..flow import FlowPolicy, exits, run_flow
+    from ..schematic import to_nodev
+    for defined in (True, False):
+        for src, uid, is_del in (("del a.b", "eval.py::AstEval.ast_delete", True), ("del a.b.c", "eval.py::AstEval.ast_delete", True)):
+            node = to_nodev(ast.parse(src).body[0])
+            seen = []
+
+            def ast_name(i, n, a, k, c, o, defined=defined):
+                nm = a[0].fields.get("id") if isinstance(a[0], NodeV) else (a[0].args[1] if isinstance(a[0], App) and len(a[0].args) > 1 else None)
+                first = nm.v.split(".")[0] if isinstance(nm, Const) else "?"
+                return [(c, ObjV("pyobj", "object") if (defined and first == "a" and isinstance(nm, Const) and "." not in nm.v) else ObjV("undef", "EvalName"))]
+
+            def state_delete(i, n, a, k, c, o):
+                seen.append(("State.delete", a[0].v if isinstance(a[0], Const) else repr(a[0])))
+                return [(c, Const(None))]
+
+            def py_delattr(i, n, a, k, c, o):
+                seen.append(("delattr", getattr(a[0], "oid", repr(a[0])), a[1].v if isinstance(a[1], Const) else repr(a[1])))
+                return [(c, Const(None))]
+
+            pol = FlowPolicy(program, may_raise_all=False, cancel=False, inline={"AstEval.ast_attribute_collapse", "self.ast_attribute_collapse"},
+                             summaries={"self.ast_name": ast_name, "State.delete": state_delete, "delattr": py_delattr,
+                                        "ast.Name": lambda i, n, a, k, c, o: [(c, NodeV("Name", {"id": k.get("id", Const("?")), "ctx": NodeV("Load", {}, "ctx")}, "synthetic"))],
+                                        "self.aeval": lambda i, n, a, k, c, o: [(c, ObjV("attr_of_pyobj" if isinstance(a[0], NodeV) and a[0].cls == "Attribute" else "pyobj", "object"))]})
+            pol.loop_unroll = 2
+            out = run_flow(program, uid, pol, args={"self": ObjV("self", "AstEval"), "arg": node}, heap={"self.curr_func": Const(None)})
+            dotted_name = src[4:]
+            last = dotted_name.rsplit(".", 1)[1]
+            want = [("delattr", "pyobj" if dotted_name.count(".") == 1 else "attr_of_pyobj", last)] if defined else [("State.delete", dotted_name)]
+            ok = bool(exits(out)) and all(k == "return" for k, c, d in exits(out)) and seen == want
+            ctx.check(ok, "R16.7", uid, f"`{src}` with `a` {'bound to a Python object' if defined else 'undefined'}",
+                      msg=f"`{src}` while `a` is {'a Python variable' if defined else 'not defined'}: performs {seen}, specified {want}"
+                      + (": an entity whose id equals the dotted expression is removed instead of the object's attribute" if defined else ""),
+                      key=f"del routing {src} {defined}", node=program.func(uid), rel="eval.py")
+
     # R16.4 exception types -------------------------------------------------------------------------------------------
     ctx.rule("R16.4", "State.get raises NameError for a missing entity and AttributeError for a missing attribute; delete likewise", floor=4)
     g = program.func("state.py::State.get")
